@@ -18,7 +18,7 @@ CALT = {"two-sided": "CITwoSided", "lower": "CILower", "upper": "CIUpper"}
 SKIPPED = [0]
 
 
-def cases(tier, rng, dist):
+def _cases(tier, rng, dist):
     NM = 9 if tier == "quick" else 14
     for N in range(1, NM + 1):
         for n in range(1, N + 1):
@@ -37,7 +37,7 @@ def cases(tier, rng, dist):
         yield {"N": N, "n": n, "x": x, "cl": rng.choice(CLS), "alt": rng.choice(list(CALT)), "G": rng.choice([None, None, 0, N, rng.randint(0, N)])}
 
 
-def run(c):
+def _run(c):
     # the counts in the form the caller holds them (ints, NumPy integer scalars, writable 0-d arrays); the same objects are
     # passed to a second, identical call
     form = (c["n"] + c["x"] + c["N"] + len(c["alt"])) % 3
@@ -129,3 +129,28 @@ def generated(tier):
     """source-derived obligations (G4 formulas): regenerated from /repo's current source text on every run"""
     from ..translate.tables import obligations
     return obligations("C13")
+
+
+# ---- failure paths (round 12): every third case is preceded by calls that the library rejects, or that fail inside a user
+# callable; they raise on the unchanged tree and must leave nothing behind (common.fail_first) ----
+
+def failing_calls(c):
+    k = c["ff"] % 3
+    def boom(*a, **kw):
+        raise Abort()
+    return [[("bad alternative", lambda: hypergeom_conf_interval(5, 2, 12, alternative="both")),
+             ("two-sided, non-numeric level", lambda: hypergeom_conf_interval(5, 2, 12, cl="0.9", alternative="two-sided")),
+             ("two-sided, population given as None", lambda: hypergeom_conf_interval(5, 2, None, cl=0.5, alternative="two-sided"))][k],
+            ("two-sided, sample larger than the population", lambda: hypergeom_conf_interval(10, 3, 5, cl=0.6, alternative="two-sided"))]
+
+
+def cases(tier, rng, dist):
+    return mark_ff(_cases(tier, rng, dist))
+
+
+def run(c):
+    ff = fail_first(failing_calls(c)) if "ff" in c else None
+    o = _run(c)
+    if ff is not None and isinstance(o, dict):
+        o["ff"] = ff
+    return o
